@@ -119,8 +119,14 @@ def run(tier, seed):
             for (l, chk), got in zip(lines, res):
                 if got == '':
                     break
+                try:
+                    bad = chk(got)
+                except (IndexError, ValueError):
+                    # a result line cut off by the death of the driver (reported below with the operation that was running)
+                    if rc != 0 or to:
+                        break
+                    bad = ('driver-output', 'unparsable result line %r' % got)
                 done += 1
-                bad = chk(got)
                 if bad:
                     vs.append(Violation(PROP, '%s:%s' % (PROP, bad[0]), bad[1], {'line': l, 'result': got}))
         if rc != 0 or to:
@@ -163,6 +169,18 @@ def run(tier, seed):
                     items.append({'k': r.choice(['rawqr', 'rawmm']), 'r': {'ts': tsd, 'cport': kk}} if r.random() < 0.7 else {'k': 'rawqr', 'r': {'cport': kk}})
                 ops.append({'op': 'dblock', 'bp': 0, 'items': items})
         ops.append({'op': 'wb'})
+        if i % 4 == 1:
+            # the active parameters' tick rate is edited in place (same index) and taken into use by a rotation; the records of the
+            # next output, spread over several seconds and arriving out of order, are stored under the new rate
+            tps2 = r.choice([x for x in (1, 1000, 10 ** 6, 10 ** 9) if x != tps])
+            ops += [{'op': 'edithints', 'tps': tps2}, {'op': 'rotate', 'id': 'o1', 'export': True}]
+            for k in range(r.choice([3, 6, 12])):
+                ts = [max(0, base + r.randrange(-8, 9)), r.randrange(0, tps2)]
+                if r.random() < 0.5:
+                    ops.append({'op': 'qr', 'r': {'tid': 100 + k, 'ts': ts}})
+                else:
+                    ops.append({'op': 'mm', 'r': {'cport': 100 + k, 'ts': ts}})
+            ops.append({'op': 'wb'})
         cases.append({'id': 't%05d' % i, 'preamble': pre, 'open': {'id': 'o0', 'kind': 'fd', 'comp': 'none'}, 'ops': ops})
     er = ExportRun(PROP, cases, 'c17b', need_lib_read=True)
     try:
